@@ -239,6 +239,22 @@ func buildSeeds() {
 		lp("LpPacket(fragment 1/2)", &spec.LpPacket{Sequence: utils.IdPtr[uint64](11), FragIndex: utils.IdPtr[uint64](1), FragCount: utils.IdPtr[uint64](2),
 			Fragment: enc.Wire{seedInterestMin[len(seedInterestMin)/2:]}})
 	}
+	// LpPackets whose fragment is itself an LpPacket, or a well-formed TLV that is neither Interest nor Data
+	addPkt("LpPacket(LpPacket(empty fragment))", lpWrap(lpInnerEmpty))
+	addPkt("LpPacket(LpPacket(Interest))", lpWrap(lpWrap(seedInterestMin)))
+	addPkt("LpPacket(LpPacket(LpPacket(empty fragment)))", lpWrap(lpWrap(lpInnerEmpty)))
+	addPkt("LpPacket(Name TLV)", lpWrap(lpNameTLV))
+	addPkt("LpPacket(ControlParameters TLV)", lpWrap(lpCtrlTLV))
+	addPkt("LpPacket(block 0x50)", lpWrap(lpBlock50))
+	// empty names (raw: the decoder may reject them, they are still seeds)
+	raw := func(name string, b []byte) {
+		seeds = append(seeds, seed{name: name, own: pktIdx, packet: true, data: b})
+	}
+	raw("Interest(empty Name)", []byte{0x05, 0x02, 0x07, 0x00})
+	raw("Interest(empty Name, parameters)", []byte{0x05, 0x05, 0x07, 0x00, 0x24, 0x01, 0x00})
+	raw("Interest(empty Name, lifetime, parameters, signature)", []byte{0x05, 0x12, 0x07, 0x00, 0x0c, 0x01, 0x0a, 0x24, 0x01, 0x00, 0x2c, 0x03, 0x1b, 0x01, 0x00, 0x2e, 0x02, 0x61, 0x62})
+	raw("Data(empty Name)", []byte{0x06, 0x02, 0x07, 0x00})
+	raw("Data(empty Name, content, signature)", []byte{0x06, 0x0f, 0x07, 0x00, 0x15, 0x02, 0x61, 0x62, 0x16, 0x03, 0x1b, 0x01, 0x00, 0x17, 0x02, 0x61, 0x62})
 	// generic model seeds
 	for gi, g := range generated {
 		for _, max := range []bool{true, false} {
